@@ -439,6 +439,29 @@ CHECKS['C20']['text'] = (
     'keeps only constant weightings (C20-F4 open, counterexample proved). Tested only: hash of composites containing '
     'FiniteSets, element indexing vs asarray (C20-F6 open), byaxis_in.')
 
+CHECKS['C05']['text'] = (
+    'Proved for all sizes, per-entry weights, fields with involution and unbounded tree depth: adj_sound (the full complex identity, '
+    'or the real-part identity for trees that mix real and complex spaces) through Sum, Comp, Left/RightScalarMult, Left/'
+    'RightVectorMult, FunctionalLeftVectorMult, ProductSpaceOperator, Broadcast, Reduction, Diagonal; every modelled leaf as coded '
+    'after the fix commits (leaf_sound: only `opaque` is assumed): Scaling, Identity, Zero, Multiply (space and field domains), '
+    'InnerProduct, RealPart, ImagPart, ComplexEmbedding, MatrixOperator (1-d, any weights: matrix_adj), PointwiseInner/Adjoint/Sum, '
+    'Sampling<->WeightedSumSampling (any weights, duplicates, complex), Flattening (C order), ComponentProjection(Adjoint); adj_type; '
+    'adj_adj_partial (right-scalar and vector multiples only tested); old_matrix_adj_fails (sensitivity). Opaque leaves (finite '
+    'differences, Resizing, Fourier, wavelets, MatrixOperator with axis/sparse/n-d, F-order flattening, n-d sampling) are decided '
+    'exactly on small spaces by the full-matrix oracle G_ran*A = (A*)^H*G_dom (out-of-place AND in-place evaluation), not by '
+    'theorem. Open findings F7 (n-d array-weighted), F56-F60.')
+CHECKS['C07']['text'] = (
+    '41 theorems, no _partial. Abstract (any real inner product space): prox_minimises (resolvent inequality => unique minimiser '
+    'with quadratic gap), prox_unique, prox_firmly_nonexpansive, indicator prox feasible/idempotent, all calculus rules with the '
+    'code\'s step formulas (translation, argument scaling, left scaling, quadratic perturbation, Moreau, separable sum), '
+    'prox_composition (L L^t = mu Id), tree_prox (whole expression trees of any depth over the calculus nodes); L2 norm and '
+    'conjugate. Scalar layer over any ordered field lifted to every n with positive weights and per-point steps: L1, conj-L1, '
+    'L2^2, conj-L2^2, box, Huber (fixed formula), KL-conj; l1_list_minimises; simplex projection fully proved '
+    '(simplex_threshold_feasible for the executable sort/cumsum/last-index rule on every list + KKT optimality, also the '
+    'array-weight path), projL1_threshold, l1ball_kkt_sufficient, linf_vi (L-infinity proximal, constant weight), '
+    'sumc_weighted_vi. No optimality theorem for group L1-L2 and vector Huber (executed model only), nuclear norm and KL cross '
+    'entropy (oracle only); Linf / l1-ball on ARRAY-weighted spaces is the open finding C07-F1 (linf_array_weighted_fails).')
+
 NOT_YET = {}
 
 
